@@ -2,20 +2,11 @@ import Rooc.Wire
 import Rooc.WireModel
 import Rooc.LpFormat
 import Rooc.LpOracle
+import Rooc.NumTok
 namespace Rooc.Drv.C17
 open Rooc Sexp
 
-/-- `(toks (#xBITS "string") …)`: the string Rust's `Display` printed for each number. -/
-def decToks : Sexp → Option (List (String × String))
-  | .list (.atom "toks" :: es) => optAll (es.map fun
-      | .list [.atom k, .str s] => some (k, s)
-      | _ => none)
-  | _ => none
-
-def tokOf {α : Type} [Wire α] (tbl : List (String × String)) (v : α) : List Char :=
-  match tbl.find? (fun p => p.1 == Wire.enc v) with
-  | some (_, s) => s.toList
-  | none => "?".toList
+open Rooc.NumTok
 
 /-- model requests for C17 (run at `Float` for the exact diff). -/
 def handle (α : Type) [Arith α] [Wire α] : List Sexp → Sexp
